@@ -214,6 +214,16 @@ func (c Configuration) resolveHigherScopedReferences(i interface{}) error {
 			// It's one of our higher level configurations, so we need to pull out a different
 			// subtree from our TOML document and inject it int othis struct.
 			config := initializePtr(field).Interface().(GlobalConfiguration)
+			if field.Kind() != reflect.Ptr {
+				// The configuration is held by value. TOML can only be unmarshalled into
+				// a pointer, so deserialize into the field's own address; the field is
+				// then already up to date and there is nothing left to set.
+				err := c.deserializeConfigInto(field.Addr().Interface(), config.namespace())
+				if err != nil {
+					return err
+				}
+				continue
+			}
 			err := c.deserializeConfigInto(config, config.namespace())
 			if err != nil {
 				return err
